@@ -41,8 +41,26 @@ def series_stream(rng, thorough, streams, viol, samples):
                           "plot": True, "display": "all" if rng.random() < 0.6 else rng.sample(chosen, len(chosen)), "order": rng.choice(["dataset", "alphabetical"]),
                           "yscale": rng.choice(["linear", "log"]), "ymin": float(0.0).hex(), "ymax": None,
                           "xmin": float(0.0 if rng.random() < 0.7 else rng.uniform(0.5, 2.0)).hex()})
+    # the same requests on objects that already produced a series / plot and were then changed in place
+    for c in cases:
+        if rng.random() < 0.35:
+            ks = list(c["contents"])
+            pre = [[rng.choice(["series", "plot"]), rng.choice([c["kind"], "num", "Bq"])]]
+            r = rng.random()
+            if r < 0.5:
+                pre.append(["add", {rng.choice(ks): float(10 ** rng.uniform(3, 20)).hex()}])
+            elif r < 0.7:
+                pre.append(["add", {rng.choice(radio): float(10 ** rng.uniform(3, 20)).hex()}])
+            elif r < 0.85 and len(ks) > 1:
+                pre.append(["remove", ks[0]])
+                if c["display"] != "all":
+                    c["display"] = [d for d in c["display"] if d != ks[0]] or "all"
+            else:
+                pre.append(["subtract", {rng.choice(ks): float(1.0).hex()}])
+            c["pre"] = pre
     for k in range(12 if thorough else 3):
         c = dict(rng.choice(cases))
+        c.pop("pre", None)
         c.update(cls="InventoryHP", npoints=2, contents={rng.choice(radio): float(1e10).hex()}, kind=rng.choice(["Bq", "g", "num", "mass_frac"]), explicit=None, display="all")
         cases.append(c)
     impl = U.run_impl("impl_series.py", cases, timeout=6000)
@@ -92,6 +110,18 @@ def series_stream(rng, thorough, streams, viol, samples):
                 bad.append((c, "plotted nuclides are not the requested ones in the requested order"))
             if [list(x) for x in zip(*p["ydata"])] != p["ref"]:
                 bad.append((c, f"plotted curve values differ from separate decays read out in {c['kind']}"))
+            # what is actually drawn: one line per displayed nuclide, carrying exactly the time points and the values above
+            shown = [n for n in p["nuclides"] if n in p["display"]]
+            if [ln[0] for ln in p["lines"]] != shown:
+                bad.append((c, f"drawn curves {[ln[0] for ln in p['lines']]} are not the displayed nuclides {shown}"))
+            else:
+                col = {n: j for j, n in enumerate(p["nuclides"])}
+                for lab, xs, ysl in p["lines"]:
+                    if xs != p["time_points"] or ysl != [row[col[lab]] for row in p["ref"]]:
+                        bad.append((c, f"drawn curve values of {lab} differ from separate decays read out in {c['kind']}")); break
+            ax = p["axes"]
+            if ax["ylabel"] != ylabel(c["kind"]) or ax["xlabel"] != f"Time ({c['tunit']})" or ax["xscale"] != c["scale"] or ax["yscale"] != c["yscale"]:
+                bad.append((c, f"axes labels / scales {ax} do not name the request"))
             ys = [float.fromhex(v) for row in p["ydata"] for v in row]
             lim = [float.fromhex(v) for v in p["ylimits"]]
             if ys and all(math.isfinite(y) for y in ys):
@@ -108,8 +138,9 @@ def series_stream(rng, thorough, streams, viol, samples):
     streams["series"] = {"cases": len(cases), "kinds": len(kinds_seen), "linear_grids_bitexact_in_coq": len(lin_terms), "grid_model_disagrees": len(badl),
                          "impl_property_failures": len(bad), "coq_errors": len(errs), "hp": sum(1 for c in cases if c["cls"] == "InventoryHP"),
                          "what": "decay_time_series / _pandas / plot (captured decay_graph arguments) for the 47 read-out kinds x {linear, log}: values bit-identical "
-                                 "to separate decays at each time, columns = decayed inventory, grid (linear bit-exact vs the PrimFloat model of linspace; log within 8 ulp), "
-                                 "explicit times verbatim, labels, curve order, y-limits"}
+                                 "to separate decays at each time, columns = decayed inventory, grid (linear bit-exact vs the PrimFloat model of linspace; log: exponents on that grid, power within 2 ulp), "
+                                 "explicit times verbatim, labels, curve order, y-limits; the lines actually drawn on the axes (labels, x, y bit-identical); "
+                                 "a third of the requests on objects that already produced a series/plot and were then changed in place"}
     seen = set()
     for c, why in bad:
         k = why.split(" for ")[0][:50]
